@@ -77,7 +77,7 @@ def tasks(tier):
     for case in ("unloading", "primary"):
         ts.append(("OgdenRoxburgh[%s]" % case, "run_ogden", dict(case=case)))
     ts.append(("MaterialStrain+linear_elastic", "run_strain_elastic", {}))
-    for case in ("elastic", "plastic"):
+    for case in ("elastic", "plastic", "mixed"):
         ts.append(("plasticity[%s]" % case, "run_plastic", dict(case=case)))
     ts.append(("CompositeMaterial", "run_composite", {}))
     ts.append(("AD wrappers", "run_wrappers", {}))
@@ -502,14 +502,14 @@ def run_ogden(col, case):
     finish_info(col, it)
 
 
-def _strain_state(nstate, dim=3, sym_blocks=()):
+def _strain_state(nstate, dim=3, sym_blocks=(), suffix=""):
     """state vector [model state..., strain_old (dim*dim), stress_old (dim*dim)]; the stored strain and stress
     (and any model block listed in sym_blocks as (offset)) are symmetric tensors, as every state the
     framework itself produces is"""
     n = nstate + 2 * dim * dim
     sv = np.empty((n, 1, 1), dtype=object)
     for k in range(n):
-        sv[k, 0, 0] = sym("sv%d" % k)
+        sv[k, 0, 0] = sym("sv%d%s" % (k, suffix))
     for off in tuple(sym_blocks) + (nstate, nstate + dim * dim):
         for i in range(dim):
             for j in range(i):
@@ -548,14 +548,22 @@ def run_plastic(col, case):
     cls = it.get("felupe.constitution.small_strain.models._linear_elastic_plastic_isotropic:LinearElasticPlasticIsotropicHardening")
     E, nu, sy, K = sym("E", True), sym("nu", True), sym("sy", True), sym("K", True)
     umat = it.call(cls, [], dict(E=E, nu=nu, sy=sy, K=K))
-    F = Fsym()
+    mixed = case == "mixed"
+    if mixed:
+        # two quadrature points in one call: point 0 yields, point 1 does not (the masked update of the radial return)
+        F = Fsym(trailing=(2, 1))
+        sv = np.concatenate([_strain_state(1 + 9, sym_blocks=(1,), suffix=""), _strain_state(1 + 9, sym_blocks=(1,), suffix="_q1")], axis=1)
+    else:
+        F = Fsym()
+        sv = _strain_state(1 + 9, sym_blocks=(1,))
     F0 = F.copy()
-    sv = _strain_state(1 + 9, sym_blocks=(1,))
     sv0 = sv.copy()
 
     def oracle(a, b, op):
         # the only symbolic order comparison in the model is the yield test f > 0
         if op == ">" and b.is_const() and b.const_value() == 0:
+            if mixed:
+                return "sv0_q1" not in str(a)
             return case == "plastic"
         return None
 
@@ -566,9 +574,15 @@ def run_plastic(col, case):
     finally:
         ring.ORDER_ORACLE[0] = None
     label = "LinearElasticPlasticIsotropicHardening(%s)" % case
-    check_tensor_derivative(col, "C03.O7", "%s.hessian" % label, method_where(cls.mro[1], "hessian"),
-                            "hessian == d gradient/dF (algorithmically consistent tangent; f > 0 %s)" % ("everywhere" if case == "plastic" else "nowhere"),
-                            g[0], h[0], F, 2)
+    if mixed:
+        for q, what in ((0, "yielding"), (1, "elastic")):
+            check_tensor_derivative(col, "C03.O7", "%s.hessian point %d" % (label, q), method_where(cls.mro[1], "hessian"),
+                                    "hessian == d gradient/dF at the %s point of a call in which only some points yield" % what,
+                                    g[0][:, :, q:q + 1], h[0][:, :, :, :, q:q + 1], F[:, :, q:q + 1], 2)
+    else:
+        check_tensor_derivative(col, "C03.O7", "%s.hessian" % label, method_where(cls.mro[1], "hessian"),
+                                "hessian == d gradient/dF (algorithmically consistent tangent; f > 0 %s)" % ("everywhere" if case == "plastic" else "nowhere"),
+                                g[0], h[0], F, 2)
     col.add("C03.O1u", "%s inputs" % label, "F and committed state unchanged", same_arrays(F, F0) and same_arrays(sv, sv0))
     finish_info(col, it)
 
